@@ -42,6 +42,12 @@ def ladder():
             "sum": "min " + "sum(i in 0..2) { " * min(d, 8) + "x" + " }" * min(d, 8) + "\ns.t.\n    x >= 1\ndefine\n    x as Real",
             "implies": "solve\ns.t.\n    " + " -> ".join(["p"] * (d + 1)) + "\ndefine\n    p as Boolean",
             "sub": f"min {' - '.join(['x'] * (4 * d))}\ns.t.\n    x >= 1\ndefine\n    x as Real(0, 1)",
+            # nests of min / max blocks (simplify must not visit an operand twice per level) and of iterators that
+            # are not ranges (the grammar must not parse the iterator's expression twice per level)
+            "minblock": f"min {'min { ' * d}x{' }' * d}\ns.t.\n    x >= 1\ndefine\n    x as Real(-5, 5)",
+            "maxconst": f"min {'max { 1, ' * d}x{' }' * d}\ns.t.\n    x >= 1\ndefine\n    x as Real(-5, 5)",
+            "minmax": f"min x\ns.t.\n    {'min { max { x, 0 }, ' * (d // 2 + 1)}1{' }' * (d // 2 + 1)} <= 3\ndefine\n    x as Real(-5, 5)",
+            "iteridx": "min x\ns.t.\n    x <= " + "".join(f"sum(i{k} in c[" for k in range(d)) + "0" + "]) { 0 }" * d + "\nwhere\n    let c = [[0]]\ndefine\n    x as Real(0, 1)",
         }
         for k, t in shapes.items():
             out.append({"id": f"ladder_{k}_{d}", "text": t, "depth": d, "kind": "ladder_" + k})
@@ -56,9 +62,19 @@ def ladder():
             "rows": f"min x_0\ns.t.\n    x_i + x_0 >= 1 for i in 0..{min(n, 200)}\ndefine\n    x_i as NonNegativeReal for i in 0..{min(n, 200)}",
             "chain": f"min x\ns.t.\n    x >= {' + '.join(['1'] * min(n, 3000))}\ndefine\n    x as Real",
             "xorvars": f"solve\ns.t.\n    xor(i in 0..{min(n, 300)}) {{ x_i }}\ndefine\n    x_i as Boolean for i in 0..{min(n, 300)}",
+            # a product of sums of variables is not linear: it must be refused without being multiplied out
+            "prodsum": f"min x\ns.t.\n    {' * '.join(['(x + y)'] * min(n // 50 + 4, 60))} <= 1\ndefine\n    x, y as Real(0, 1)",
         }
         for k, t in shapes.items():
             out.append({"id": f"wide_{k}_{n}", "text": t, "depth": n, "kind": "ladder_wide_" + k})
+    # flat operator chains within the 4 KiB of the property, on a thread with the default stack of a spawned
+    # Rust thread (2 MiB) instead of the main thread of the child process
+    for n in (200, 1000, 2000):
+        for k, op in (("add", "+"), ("and", "&&"), ("mulone", "*1")):
+            body = op.join(["x"] * n) if k != "mulone" else "x" + "*1" * n
+            decl = "x as Boolean" if k == "and" else "x as Real(0, 1)"
+            t = (f"solve\ns.t.\n    {body}\ndefine\n    {decl}" if k == "and" else f"max {body}\ns.t.\n    x <= 1\ndefine\n    {decl}")
+            out.append({"id": f"thread_{k}_{n}", "text": t, "depth": n, "kind": "ladder_thread_" + k, "stack": "thread"})
     return out
 
 
@@ -89,7 +105,25 @@ EXTREME = [
     "min 1\ns.t.\n    x_i_j >= 0 for i in 0..100000, j in 0..100000\ndefine\n    x_i_j as Boolean for i in 0..2, j in 0..2",
     "min 1\ns.t.\n    1 >= 1\ndefine\n    x_i_j_k as Boolean for i in 0..1000, j in 0..1000, k in 0..1000",
     "min sum(i in 0..999999) { sum(j in 0..999999) { 1 } }\ns.t.\n    1 >= 1",
+    # unsigned values beyond the signed range (i * i with i = 3037000500) in sums, names and ranges
+    "max x\ns.t.\n    x <= sum(j in (i * i)..=(i * i)) { j } for i in 3037000500..3037000501\ndefine\n    x as Real(0, 10)",
+    "min x_{i * i - 1}\ns.t.\n    x_{i * i - 1} >= 1\nwhere\n    let i = 3037000500\ndefine\n    x_{i * i - 1} as Real",
+    "min x\ns.t.\n    x >= k - 1 + 0\nwhere\n    let i = 4294967296\n    let k = i * i / 2 + i * 2147483648\ndefine\n    x as Real",
 ]
+
+
+def extreme_ops():
+    """Every arithmetic operator between an integer at the limit of its range and an operand of every numeric kind
+    (integer, Boolean literal, Boolean constant, float, unsigned beyond i64), both orders, in a `let` (evaluated)."""
+    lims = ["9223372036854775807", "(0 - 9223372036854775807 - 1)", "18446744073709551615", "9223372036854775808"]
+    others = ["true", "B", "1", "2", "0.5", "(0 - 1)", "9223372036854775807", "18446744073709551615"]
+    out = []
+    for a in lims:
+        for b in others:
+            for op in ("+", "-", "*", "/"):
+                for l, r in ((a, b), (b, a)):
+                    out.append(f"min x\ns.t.\n    x >= 1\nwhere\n    let B = true\n    let k = {l} {op} {r}\ndefine\n    x as Real(0, 5)")
+    return out
 
 
 def soup(seed, n):
@@ -121,7 +155,7 @@ def check(tier, seed, replay=None):
         progs += [render.model_text(c, rewrite.plain) for c in kcases]
         cases = [{"id": f"valid{i}", "text": p, "kind": "valid"} for i, p in enumerate(progs)]
         cases += ladder()
-        cases += [{"id": f"extreme{i}", "text": t, "kind": "extreme"} for i, t in enumerate(EXTREME)]
+        cases += [{"id": f"extreme{i}", "text": t, "kind": "extreme"} for i, t in enumerate(EXTREME + extreme_ops())]
         cases += soup(seed, 300 if tier == "quick" else 6000)
         ix, g, dd = core.gen_cases(SPEC_DIR, "IndexGen.tla", "IndexGen.cfg", "indexgen", workers=2)
         meta["IndexGen"] = {"cases": len(ix), "gen_states": dd, "gen_transitions": g}
